@@ -43,6 +43,10 @@ type acct struct {
 	Std       bool                                     // standard signature / multi-signature contract
 	Inv       func(tx *transaction.Transaction) []byte // invocation script of a non-standard witness
 	NoneScope bool                                     // the signer must have the None scope (native contracts, oracle nodes)
+	Contract  bool                                     // a deployed contract: empty verification script, its `verify` method decides
+	GoodInv   func(inv []byte) bool                    // (Contract) the invocation scripts that make `verify` return true, by construction of the contract
+	FixedGas  int64                                    // != 0: verification cost known from the cost model of the script (never measured at the limit)
+	Bad       string                                   // != "": the witness does not verify, by construction of its scripts
 }
 
 var (
@@ -140,8 +144,11 @@ func (a *acct) witness(magic uint32, tx *transaction.Transaction) transaction.Wi
 
 // notaryAcct is the native Notary contract as a signer: its witness is a
 // signature of a designated notary node and an empty verification script.
-func notaryAcct(magic uint32) *acct {
-	k := chainx.Acc(4).PrivateKey()
+func notaryAcct(magic uint32) *acct { return notaryAcctBy(magic, 4) }
+
+// notaryAcctBy: the Notary contract's witness signed by account i.
+func notaryAcctBy(magic uint32, i int) *acct {
+	k := chainx.Acc(i).PrivateKey()
 	return &acct{Name: "notary", Hash: nativehashes.Notary, NoneScope: true, Inv: func(tx *transaction.Transaction) []byte {
 		return pushSig(k.SignHashable(magic, tx))
 	}}
@@ -264,11 +271,22 @@ func calcFeeGas(bc *core.Blockchain, magic uint32, tx *transaction.Transaction, 
 			continue
 		}
 		w := a.witness(magic, tx)
-		consumed, verr := bc.VerifyWitness(a.Hash, tx, &w, gasLimit)
-		if verr != nil && !errors.Is(verr, core.ErrInvalidSignature) {
-			// too costly for the policy limit: charge the limit (the
-			// transaction is invalid anyway)
-			consumed = gasLimit + 1
+		var consumed int64
+		switch {
+		case a.FixedGas != 0:
+			consumed = a.FixedGas
+		default:
+			var verr error
+			consumed, verr = bc.VerifyWitness(a.Hash, tx, &w, gasLimit)
+			if verr != nil && !errors.Is(verr, core.ErrInvalidSignature) {
+				// too costly for the policy limit: charge the limit (the
+				// transaction is invalid anyway)
+				consumed = gasLimit + 1
+				if a.Contract || a.Bad != "" {
+					// missing contract / missing or faulting verify / a script that cannot verify: nothing to charge
+					consumed = 0
+				}
+			}
 		}
 		gasOf[i] = consumed
 		gasLimit -= consumed
@@ -542,6 +560,16 @@ type state struct {
 	Hist    []int
 	Blocked map[util.Uint160]bool
 	Oracle  bool // account 3 is the designated oracle node and request 0 is pending
+	// extensions (ext_*_test.go)
+	Sc        *chainx.Scenario       // nil: the main scenario
+	Only      map[string]bool        // shapes of the soundness menu run in this state (nil: all)
+	LevelOnly bool                   // only the state-level submissions
+	Expect    *policyExpect          // policy values the history set, by construction
+	Deposits  map[util.Uint160]int64 // Notary deposits made by the history
+	Gone      map[util.Uint160]bool  // contracts destroyed by the history
+	Extra     map[util.Uint160]bool  // contracts deployed by the history (beyond UA and UB)
+	NotaryAcc int                    // account designated as the notary node (0: account 4)
+	Multi     bool                   // multi-validator family: the committee is taken from the member list
 }
 
 func famSingle(extra func(*config.Blockchain)) chainx.Family {
